@@ -133,7 +133,7 @@ def _handle(text, how):
     return io.StringIO(text)
 
 
-def consume(entry, text, work, encoding, how="text", preopen=None):
+def consume(entry, text, work, encoding, how="text", preopen=None, backup=None):
     if entry == "ovf":
         from dissect.hypervisor.descriptor.ovf import OVF
         return list(OVF(_handle(text, how)).disks())
@@ -158,8 +158,23 @@ def consume(entry, text, work, encoding, how="text", preopen=None):
         p.write_text(text, encoding="utf-8")
     else:
         p.write_bytes(text.replace('<?xml version="1.0"?>', f'<?xml version="1.0" encoding="{encoding}"?>').encode(encoding))
-    d = Descriptor(p)
+    if backup is not None:
+        # the disk directory is opened as a whole; an older, entity-free copy of the descriptor lies next to the current one
+        from dissect.hypervisor.disk.hdd import HDD
+        bp = Path(work) / "DiskDescriptor.xml.Backup"
+        bp.write_text(backup, encoding="utf-8")
+        try:
+            d = HDD(rng_choice_path(work, p)).descriptor
+        finally:
+            bp.unlink()
+    else:
+        d = Descriptor(p)
     return [im.file for st in d.storage_data.storages for im in st.images]
+
+
+def rng_choice_path(work, p):
+    """HDD() takes the directory or a file inside it."""
+    return Path(work) if len(str(p)) % 2 else p
 
 
 STYLES = [{"in_attr": False}, {"in_attr": True}, {"in_attr": False, "pad": 3000}, {"in_attr": True, "pad": 70000}]
@@ -170,7 +185,11 @@ SHAPES = [{"shape": "charrefs"}, {"shape": "leading-blank-lines"}, {"shape": "de
           {"shape": "no-namespace"}, {"shape": "legacy-namespace", "in_attr": True}, {"shape": "nul-tail"}, {"shape": "nul-tail-sector", "in_attr": True},
           {"shape": "nul-mid"}, {"shape": "bom"}, {"shape": "ws-tail", "in_attr": True}, {"shape": "pad-64k-1", "pad": 65536 - 60},
           {"shape": "pad-64k+1", "pad": 65536 + 1, "in_attr": True}, {"shape": "pad-1m", "pad": 1 << 20}, {"shape": "version-1.1"},
-          {"shape": "standalone"}, {"shape": "crlf", "in_attr": True}, {"shape": "upper-root-comment"}]
+          {"shape": "standalone"}, {"shape": "crlf", "in_attr": True}, {"shape": "upper-root-comment"},
+          # the words of an entity declaration in places where they are character data: a comment, a CDATA section, escaped text
+          {"shape": "mentions-entity"}, {"shape": "mentions-entity-attr", "in_attr": True},
+          # the Parallels disk directory opened as a whole, an entity-free backup descriptor next to the current one
+          {"shape": "dir-with-backup", "backup": True}, {"shape": "dir-with-backup-attr", "backup": True, "in_attr": True}]
 
 
 # what an entity-free document of these shapes must parse to, per entry point
@@ -178,6 +197,10 @@ SHAPE_RESULTS = {
     "charrefs": {"ovf": "Café & disk.vmdk", "vbox": "Café & a.vdi", "pvs": "Café & a&b h.hdd", "hdd": "Café & <&> d.hds"},
     "declared-utf16": {"ovf": "diskü✓.vmdk", "vbox": "aü✓.vdi", "pvs": "hü✓.hdd", "hdd": "dü✓.hds"},
     "declared-latin1": {"ovf": "diskü✓.vmdk", "vbox": "aü✓.vdi", "pvs": "hü✓.hdd", "hdd": "dü✓.hds"},
+    "mentions-entity": {"ovf": "<!ENTITY e 'v'> disk.vmdk", "vbox": "<!ENTITY e 'v'> a.vdi", "pvs": '<!ENTITY e "v"> h.hdd', "hdd": '<!ENTITY e SYSTEM "file:///x"> d.hds'},
+    "mentions-entity-attr": {"ovf": "<!ENTITY e 'v'> disk.vmdk", "vbox": "<!ENTITY e 'v'> a.vdi", "pvs": '<!ENTITY e "v"> h.hdd', "hdd": '<!ENTITY e SYSTEM "file:///x"> d.hds'},
+    "dir-with-backup": {"ovf": "disk.vmdk", "vbox": "a.vdi", "pvs": "h.hdd", "hdd": "d.hds"},
+    "dir-with-backup-attr": {"ovf": "disk.vmdk", "vbox": "a.vdi", "pvs": "h.hdd", "hdd": "d.hds"},
 }
 
 
@@ -186,6 +209,12 @@ def reshape(text, shape, rng):
         # numeric character references, the predefined &amp; and a CDATA section are not entity declarations: they decode
         for a, b in (("<SystemName>h", "<SystemName>Caf&#233; &amp; <![CDATA[a&b]]> h"), ('location="a', 'location="Caf&#xE9; &amp; a'),
                      ('href="disk', 'href="Caf&#233; &amp; disk'), ("<File>d", "<File>Caf&#233; &amp; <![CDATA[<&>]]> d")):
+            text = text.replace(a, b)
+        return text
+    if shape.startswith("mentions-entity"):
+        text = text.replace('<?xml version="1.0"?>\n', '<?xml version="1.0"?>\n<!-- <!DOCTYPE x [ <!ENTITY a "b"> <!ENTITY c SYSTEM "file:///etc/passwd"> ]> -->\n', 1)
+        for a, b in (("<SystemName>h", '<SystemName><![CDATA[<!ENTITY e "v">]]> h'), ('location="a', "location=\"&lt;!ENTITY e 'v'&gt; a"),
+                     ('href="disk', "href=\"&lt;!ENTITY e 'v'&gt; disk"), ("<File>d", '<File><![CDATA[<!ENTITY e SYSTEM "file:///x">]]> d')):
             text = text.replace(a, b)
         return text
     if shape == "leading-blank-lines":
@@ -273,7 +302,8 @@ def run(ctx):
                         pre = None
                         if style.get("preopen") and st["entry"] == "hdd":
                             pre = render(st["entry"], set(), secret, rng, {"in_attr": False})[0]
-                        res = consume(st["entry"], text, work, enc, how=style.get("how", "text"), preopen=pre)
+                        bak = render(st["entry"], set(), secret, rng, {"in_attr": False})[0] if (style.get("backup") and st["entry"] == "hdd") else None
+                        res = consume(st["entry"], text, work, enc, how=style.get("how", "text"), preopen=pre, backup=bak)
                     except diskcheck.Hang:
                         verdict = "hang"
                     except Exception as e:  # noqa: BLE001
